@@ -34,6 +34,10 @@ type Program struct {
 	// that is analysed. Functions declared in a file that imports "testing" are excluded.
 	InScope  map[*ssa.Function]bool
 	Excluded int
+	// AddedDeclared counts declared functions that ssautil.AllFunctions does not reach (unreferenced methods).
+	AddedDeclared int
+	// DeadDeclared lists unexported declared methods that nothing in the module references (callable from tests only).
+	DeadDeclared []string
 	// ExcludedFiles lists the files excluded by the imports-testing criterion.
 	ExcludedFiles []string
 
@@ -134,7 +138,51 @@ func (p *Program) computeScope() {
 	for _, pk := range p.Pkgs {
 		modPkgs[pk.Types] = true
 	}
-	for fn := range ssautil.AllFunctions(p.SSA) {
+	all := ssautil.AllFunctions(p.SSA)
+	// AllFunctions visits package-level functions, the methods of types that are converted to an interface somewhere,
+	// and what those reference. A declared method it does not reach is one that nothing in the module calls and whose
+	// receiver is never boxed. If it is exported it is API and is added; if it is unexported only *_test.go files can
+	// call it: it is dead code of the library, stays out of scope (it would otherwise be analysed as an entry point
+	// nobody can enter) and is listed in DeadDeclared.
+	for _, pk := range p.Pkgs {
+		for i, f := range pk.Syntax {
+			if excludedFile[pk.CompiledGoFiles[i]] {
+				continue
+			}
+			for _, d := range f.Decls {
+				fd, ok := d.(*ast.FuncDecl)
+				if !ok || fd.Body == nil {
+					continue
+				}
+				obj, ok := pk.TypesInfo.Defs[fd.Name].(*types.Func)
+				if !ok {
+					continue
+				}
+				fn := p.SSA.FuncValue(obj)
+				if fn == nil || all[fn] || (fn.TypeParams().Len() > 0 && len(fn.TypeArgs()) == 0) {
+					continue
+				}
+				if !ast.IsExported(fd.Name.Name) {
+					p.DeadDeclared = append(p.DeadDeclared, FuncName(fn))
+					continue
+				}
+				var add func(f *ssa.Function)
+				add = func(f *ssa.Function) {
+					if all[f] {
+						return
+					}
+					all[f] = true
+					p.AddedDeclared++
+					for _, a := range f.AnonFuncs {
+						add(a)
+					}
+				}
+				add(fn)
+			}
+		}
+	}
+	sort.Strings(p.DeadDeclared)
+	for fn := range all {
 		if fn.Synthetic != "" && fn.Syntax() == nil && fn.Origin() == nil {
 			continue
 		}
